@@ -76,7 +76,7 @@ theorem commitStep_acks (c : Cfg) (sv : Srv) {a : Ack} (ha : a ∈ (commitStep c
   split at ha
   · simp at ha
   · rename_i hmin
-    simp only [Gen.Protocol.commitMinISRCmp, Cmp.evalNat, decide_eq_true_eq, Nat.not_lt] at hmin
+    simp only [commitGate, Gen.Pipeline.commitGateCurrentIsr, Bool.true_and, Gen.Protocol.commitMinISRCmp, Cmp.evalNat, decide_eq_true_eq, Nat.not_lt] at hmin
     have h1 := published_sub ha
     have h2 := List.mem_filter.mp h1
     have h3 := mem_takeWhile_imp h2.1
